@@ -1052,14 +1052,15 @@ public:
             last = k;
             have_last = true;
             ++steps;
-            // layer of the cursor (for the open finding "layer root replaced under the cursor")
+            // layers the cursor has stacked: the one of k and every one above it except layer 0 (for the open finding "layer
+            // root replaced under the cursor": the cursor resumes an upper layer from its saved root as well)
             const std::size_t depth = k.empty() ? 0 : (k.size() - 1) / 8;
-            const std::string layer_prefix = k.substr(0, 8 * depth);
-            base_node* layer_root_before = nullptr;
+            std::vector<std::pair<std::string, base_node*>> layer_roots_before;
             if (depth >= 1) {
                 vf::WalkOut w0 = vf::walk(ti_of(name));
-                for (auto& e : w0.entries) {
-                    if (e.key == k) { layer_root_before = e.layer_root; }
+                for (std::size_t d = 1; d <= depth; ++d) {
+                    auto it = w0.layer_roots.find(k.substr(0, 8 * d));
+                    if (it != w0.layer_roots.end()) { layer_roots_before.emplace_back(it->first, it->second); }
                 }
             }
             // interleave 0..3 writes
@@ -1089,11 +1090,12 @@ public:
                 }
             }
             if (structural_change_in_cursor_border) { writer_hit_cursor_border = true; }
-            if (layer_root_before != nullptr) {
-                node_version64_body rv = layer_root_before->get_version();
+            for (auto& [lp, lr] : layer_roots_before) {
+                node_version64_body rv = lr->get_version();
                 bool replaced = (!rv.get_root() && !rv.get_deleted()) || (rv.get_deleted() && !rv.get_border());
                 if (replaced) {
-                    // trigger of the open finding C10/cursor_layer_root_replaced_skip: the root of the next layer the cursor is
+                    if (trace) { std::fprintf(stderr, "TRACE   root of layer \"%s\" replaced while the cursor is at \"%s\"\n", show(lp).c_str(), show(k).c_str()); }
+                    // trigger of the open finding C10/cursor_layer_root_replaced_skip: the root of a next layer the cursor is
                     // in was split or collapsed.  Excluded by construction in 7 of 8 cases so the search continues behind it.
                     if (c_.range(0, 7) != 0) {
                         if (record_) { ++st_.excluded_by_construction; }
@@ -1101,8 +1103,9 @@ public:
                         iscan_close(ctx);
                         return;
                     }
-                    root_replaced_prefix_ = layer_prefix;
+                    if (!root_replaced_ || lp.size() < root_replaced_prefix_.size()) { root_replaced_prefix_ = lp; }
                     root_replaced_ = true;
+                    break;
                 }
             }
             rc = iscan_next(ctx, val);
@@ -1565,6 +1568,37 @@ public:
                 st_.cls("phantom_no_candidate");
                 continue;
             }
+            // other sessions may remove keys between the read and the insert (removes change no node version; emptying the tree
+            // leaves a deleted root border that the insert revives): the recorded set must still catch the insert
+            std::vector<std::pair<std::string, MVal>> removed_between;
+            if (!ms.empty() && c_.chance(1, 3)) {
+                std::vector<std::string> victims;
+                switch (c_.range(0, 2)) {
+                    case 0: // everything
+                        for (auto& [k, mv] : ms) { victims.push_back(k); }
+                        break;
+                    case 1: // every key of the covered interval
+                        for (auto& [k, mv] : ms) {
+                            if (in_interval(k, cov.l, cov.le, cov.r, cov.re)) { victims.push_back(k); }
+                        }
+                        break;
+                    default: { // a few
+                        unsigned nv = 1 + c_.range(0, 3);
+                        for (unsigned i = 0; i < nv; ++i) { victims.push_back(vf::nth_key(ms, c_.range(0, 65535))); }
+                    }
+                }
+                if (victims.size() > 300) { victims.resize(300); }
+                std::sort(victims.begin(), victims.end());
+                victims.erase(std::unique(victims.begin(), victims.end()), victims.end());
+                std::size_t saved = log.size();
+                for (auto& k : victims) {
+                    removed_between.emplace_back(k, ms.at(k));
+                    do_remove(name, k);
+                }
+                log.resize(saved);
+                note("  (" + std::to_string(victims.size()) + " stored keys removed between the read and the insert)");
+                classes.insert("phantom_removes_between");
+            }
             // which border will receive x?  (for the non-triviality rule) -- look at where it ends up after the insert
             MVal v = gen_bulk_value();
             do_put(name, x, v, true, 0, false);
@@ -1601,6 +1635,11 @@ public:
             }
             classes.insert(kind == 0 ? "phantom_scan" : kind == 1 ? "phantom_get_miss" : "phantom_iscan");
             do_remove(name, x);
+            if (!removed_between.empty()) {
+                std::size_t saved = log.size();
+                for (auto& [k, mv] : removed_between) { do_put(name, k, mv, true, 0, false); }
+                log.resize(saved);
+            }
         }
     }
     // true if border b has a link entry whose subtree contains a border recorded in nvv
